@@ -107,6 +107,12 @@ Theorem C02_src_pin_parblock_new : pin_unchanged name_parblock_new.
 Proof. exact pin_parblock_new. Qed.
 Theorem C02_src_pin_main_main : pin_unchanged name_main_main.
 Proof. exact pin_main_main. Qed.
+(* `selected`: the filter every walked entry passes through, and the matcher it asks *)
+From XcpPins Require Import Pin_paths_ignore_filter Pin_paths_parse_ignore.
+Theorem C02_src_pin_paths_ignore_filter : pin_unchanged name_paths_ignore_filter.
+Proof. exact pin_paths_ignore_filter. Qed.
+Theorem C02_src_pin_paths_parse_ignore : pin_unchanged name_paths_parse_ignore.
+Proof. exact pin_paths_parse_ignore. Qed.
 (* the worker count both drivers start with is >= 1 whatever -w says (0 = one per CPU; a machine has >= 1): the
    hypothesis `1 <= W` of the driver theorems, from the two translated definitions *)
 Theorem C02_src_workers_at_least_one : forall w ncpus, (1 <= ncpus)%N -> (1 <= x_num_workers (x_config_workers w ncpus) ncpus)%N.
@@ -193,3 +199,5 @@ Theorem C02_src_root_link_followed_iff_deref :
 Proof. destruct x_walker_shape_ok as (_ & _ & Hi & _). rewrite Hi. reflexivity. Qed.
 Print Assumptions C02_link_operand_is_one_action.
 Print Assumptions C02_src_root_link_followed_iff_deref.
+Print Assumptions C02_src_pin_paths_ignore_filter.
+Print Assumptions C02_src_pin_paths_parse_ignore.
